@@ -29,12 +29,17 @@ def run(rep, tier, seed):
     lines = transforms.gen(seed, tier, "C18")
     vlib.run_stream(rep, "liveness-crawler", "transforms", "transforms", lines, oracle=transforms.oracle,
                     nontrivial=transforms.nontrivial, key=transforms.key)
+    import C18_inter
+    C18_inter.streams(rep, tier, seed)
 
 
 def replay(path):
     """bin/check C18 --replay <file>: re-run the recorded case on both sides, print both answers and the oracle's verdict."""
     import os, re
     txt = open(path).read()
+    if "stream=crawler-inter" in txt:
+        import C18_inter
+        return C18_inter.replay(path)
     m = re.search(r"^input: (.*)$", txt, re.M)
     if not m:
         print("no recorded input in", path)
